@@ -105,6 +105,7 @@ func (w *writer) Publish(msgs []message.Message) (int64, error) {
 			return OffsetInvalid, err
 		}
 		indexTime = items[i].Timestamp
+		verifhook.Pause("publish.record-written")
 	}
 
 	verifhook.Pause("publish.files-written")
